@@ -110,6 +110,12 @@ class Hub:
             self.ready.append((t, None))
             self.main.switch()
 
+    def yield_now(self):
+        """Unconditional schedule point (for harness-side tasks that poll for a condition)."""
+        t = self.current
+        self.ready.append((t, None))
+        self.main.switch()
+
     def run(self):
         """Run until no task is runnable (quiescence)."""
         while self.ready:
